@@ -303,6 +303,12 @@ class HTTP1Connection(httputil.HTTPConnection):
             gen_log.info("Malformed HTTP message from %s: %s", self.context, e)
             if not self.is_client:
                 await self.stream.write(b"HTTP/1.1 400 Bad Request\r\n\r\n")
+            else:
+                # A client delegate has no other way to learn that the
+                # response could not be parsed (errors in the start line or
+                # header block are raised before need_delegate_close is set),
+                # so without this the request would never complete.
+                need_delegate_close = True
             self.close()
             return False
         finally:
